@@ -42,4 +42,14 @@ theorem gen_comparator :
     Generated.C16.comparatorReturns = ["utxos[i].Vout < utxos[j].Vout", "utxos[i].TxID < utxos[j].TxID",
       "utxos[i].Status.BlockTime < utxos[j].Status.BlockTime"] := by decide
 
+/-- `outputs` refuses exactly when this amount or the running total (tested after the addition) exceeds the supply; with
+    the total before the addition within the supply this is the model's `sumAmounts > maxSat` -/
+theorem gen_supply_cap (amt total : Nat) :
+    Generated.C16.supplyCap amt total = (decide (amt > maxSat) || decide (total > maxSat)) ∧
+    Generated.C16.supplyCapAfterAddition = true := by
+  simp [Generated.C16.supplyCap, Generated.C16.supplyCapAfterAddition, maxSat]
+
+/-- the message handler tests `IsUint64` and returns before `.Uint64()` can truncate (`msgAmount = none`) -/
+theorem gen_handler_uint64 : Generated.C16.handlerChecksUint64 = true := by decide
+
 end Sygma.C16
